@@ -877,10 +877,19 @@ impl Parser for BlockStatement {
 impl Parser for Statement {
     fn parse<'a>(this: Option<&Self>, input: TokenStream<'a>) -> IResult<'a, Self> {
         fn parse_error(input: TokenStream) -> IResult<Statement> {
+            let start = input.clone();
             let (input, ((_, ignored), mut info)) = info(tuple((
                 many0(comment),
                 ignore_until1(peek(look_ahead::stmt)),
-            )))(input)?;
+            )))(input)
+            .map_err(|err| {
+                // nothing to skip: fail in front of the comments,
+                // they belong to whatever follows
+                err.map(|mut err| {
+                    err.input = start;
+                    err
+                })
+            })?;
             let err = SplError(
                 info.to_range(),
                 ParseErrorMessage::UnexpectedCharacters(
